@@ -102,7 +102,13 @@ def realize(a, ids, style="constructor"):
     for t in a["types"]:
         k, n = t["k"], t["name"]
         if k == "scalar":
-            reg[n] = ScalarType(n, serialize=str, parse=str)
+            if t.get("impl") == "subclass":
+                class AppStamp(ScalarType):
+                    def serialize(self, value):
+                        return "S:%s" % (value,)
+                reg[n] = AppStamp(n, serialize=str, parse=str)
+            else:
+                reg[n] = ScalarType(n, serialize=str, parse=str)
         elif k == "enum":
             reg[n] = EnumType(n, [EnumValue(v["name"], deprecation_reason=v["dep"] or None) for v in t["values"]], description=t["desc"] or None)
         elif k == "input":
@@ -222,7 +228,14 @@ def project(s):
             index(n, "field_map", t.field_map, t.fields)
             d = {"k": "input", "name": n, "fields": args(n, t.fields), "desc": t.description or ""}
         else:
-            d = {"k": "scalar", "name": n}
+            from py_gql.schema import ScalarType
+            try:
+                beh = t.serialize(1)
+            except Exception as e:
+                beh = "raises " + type(e).__name__
+            d = {"k": "scalar", "name": n, "impl": "plain" if type(t) is ScalarType else ("subclass" if beh == "S:1" else "subclass-without-its-behaviour")}
+            if type(t) is ScalarType and beh == "S:1":
+                d["impl"] = "plain-class-with-the-behaviour"
         types.append(d)
     for root in ("query_type", "mutation_type", "subscription_type"):
         r = getattr(s, root)
@@ -270,6 +283,8 @@ def normalize(a):
             d.update(values=[{"name": v["name"], "dep": v["dep"]} for v in t["values"]], desc=t["desc"])
         elif k == "input":
             d.update(fields=args(t["fields"]), desc=t["desc"])
+        elif k == "scalar":
+            d["impl"] = t.get("impl", "plain")
         types.append(d)
     return {"query": a["query"], "mutation": a["mutation"], "subscription": a["subscription"], "sdres": a.get("sdres", ""),
             "types": sorted(types, key=lambda d: d["name"]),
